@@ -6,7 +6,8 @@
   posting list in the index file), in table order.  Label values are compared only with
   `<`, `==` (Go string comparison): the harness maps the strings of a case to their ranks, so a
   value is a `Nat` here and the theorems hold for any strictly increasing table.
-  The table is read through an entry index instead of a `Decbuf` position (`tableOff`).
+  A `Decbuf` positioned in the table is the list of the entries not yet read (`tbl.drop tableOff`,
+  with `tableOff` counted in entries instead of bytes).
 -/
 namespace Thanos.IndexHeader
 
@@ -43,12 +44,6 @@ def searchGE (offsets : List Sampled) (wanted : Nat) : Nat :=
 /-- set the end of every pending range -/
 def closeAll (pending : List Rng) (stop : Int) : List Rng := pending.map fun r => ⟨r.start, stop⟩
 
-/-- The state of the `Iter` loop of `postingsOffset`. -/
-structure St where
-  rngs : List Rng          -- result so far (in order)
-  vi : Nat                 -- valueIndex
-  deriving Repr
-
 /-- result of the inner `for string(value) >= wantedValue` loop -/
 inductive Inner where
   | done (rngs : List Rng) (pending : List Rng) (vi : Nat)      -- fell out of the loop / `break`
@@ -74,41 +69,38 @@ def inner (offsets : List Sampled) (i : Nat) (value postingOffset : Nat) :
         else inner offsets i value postingOffset rest rngs pending vi
     else .done rngs pending vi
 
-/-- the `Iter` loop, started with the table cursor at `cur`; returns the ranges so far and the
-    new valueIndex.  `values` is the whole list of wanted values. -/
-def iterLoop (offsets : List Sampled) (tbl : List (Nat × Nat)) (lastValOffset : Int) (values : List Nat) :
-    (fuel : Nat) → (i cur : Nat) → (rngs pending : List Rng) → (vi : Nat) → Except Err (List Rng × Nat)
-  | 0, _, _, _, _, _ => .error .fuel
-  | fuel + 1, i, cur, rngs, pending, vi =>
-    match tbl[cur]? with
-    | none => .error .decode
-    | some (value, postingOffset) =>
-      -- ranges added in the previous iteration end where this posting list starts
-      let rngs := rngs ++ closeAll pending ((postingOffset : Int) - 4)
-      match inner offsets i value postingOffset (values.drop vi) rngs [] vi with
-      | .breakIter rngs vi => .ok (rngs, vi)
-      | .done rngs pending vi =>
-        if i + 1 = offsets.length then
-          -- no more offsets for this name
-          .ok (rngs ++ closeAll pending lastValOffset, vi)
-        else
-          match offsets[i + 1]? with
-          | none => .error .index
-          | some next =>
-            match values[vi]? with
-            | some wanted =>
-              if wanted ≤ next.1 then
-                let i := if wanted = next.1 then i + 1 else i
-                iterLoop offsets tbl lastValOffset values fuel i (cur + 1) rngs pending vi
-              else finish rngs pending vi (cur + 1)
-            | none => finish rngs pending vi (cur + 1)
-where
-  /-- nothing wanted in this stretch any more: pending ranges end at the next posting list -/
-  finish (rngs pending : List Rng) (vi : Nat) (cur : Nat) : Except Err (List Rng × Nat) :=
-    if pending.isEmpty then .ok (rngs, vi) else
-    match tbl[cur]? with
-    | none => .error .decode
-    | some (_, postingOffset) => .ok (rngs ++ closeAll pending ((postingOffset : Int) - 4), vi)
+/-- nothing wanted in this stretch any more: pending ranges end where the next posting list
+    starts (`skipNAndName; UvarintBytes; Uvarint64` on the entry that follows) -/
+def finish (rest : List (Nat × Nat)) (rngs pending : List Rng) (vi : Nat) : Except Err (List Rng × Nat) :=
+  if pending.isEmpty then .ok (rngs, vi) else
+  match rest with
+  | [] => .error .decode
+  | (_, postingOffset) :: _ => .ok (rngs ++ closeAll pending ((postingOffset : Int) - 4), vi)
+
+/-- the `Iter` loop; `rest` = the table entries from the Decbuf position on; returns the ranges so
+    far and the new valueIndex.  `values` is the whole list of wanted values. -/
+def iterLoop (offsets : List Sampled) (lastValOffset : Int) (values : List Nat) :
+    (rest : List (Nat × Nat)) → (i : Nat) → (rngs pending : List Rng) → (vi : Nat) → Except Err (List Rng × Nat)
+  | [], _, _, _, _ => .error .decode
+  | (value, postingOffset) :: rest, i, rngs, pending, vi =>
+    -- ranges added in the previous iteration end where this posting list starts
+    let rngs := rngs ++ closeAll pending ((postingOffset : Int) - 4)
+    match inner offsets i value postingOffset (values.drop vi) rngs [] vi with
+    | .breakIter rngs vi => .ok (rngs, vi)
+    | .done rngs pending vi =>
+      if i + 1 = offsets.length then
+        -- no more offsets for this name
+        .ok (rngs ++ closeAll pending lastValOffset, vi)
+      else
+        match offsets[i + 1]? with
+        | none => .error .index
+        | some next =>
+          match values[vi]? with
+          | some wanted =>
+            if wanted ≤ next.1 then
+              iterLoop offsets lastValOffset values rest (if wanted = next.1 then i + 1 else i) rngs pending vi
+            else finish rest rngs pending vi
+          | none => finish rest rngs pending vi
 
 /-- the outer loop of `postingsOffset` -/
 def outer (offsets : List Sampled) (tbl : List (Nat × Nat)) (lastValOffset : Int) (values : List Nat) :
@@ -130,7 +122,7 @@ def outer (offsets : List Sampled) (tbl : List (Nat × Nat)) (lastValOffset : In
           match offsets[i]? with
           | none => .error .index
           | some oi =>
-            match iterLoop offsets tbl lastValOffset values (tbl.length + 1) i oi.2 rngs [] vi with
+            match iterLoop offsets lastValOffset values (tbl.drop oi.2) i rngs [] vi with
             | .error e => .error e
             | .ok (rngs, vi) => outer offsets tbl lastValOffset values fuel rngs vi
 
@@ -156,15 +148,16 @@ where
     | [] => .error .decode
     | (v, _) :: rest => if v = lastVal then .ok [v] else (go lastVal rest).map (v :: ·)
 
-/-- what the full index answers: the location of every wanted value -/
+/-- what the full index answers for one value: the posting list of entry `k` starts 4 bytes after
+    its offset (length field) and ends 4 bytes (CRC) before the next posting list starts -/
+def specOne (lastValOffset : Int) : List (Nat × Nat) → Nat → Rng
+  | [], _ => notFound
+  | [(v, p)], w => if v = w then ⟨(p : Int) + 4, lastValOffset⟩ else notFound
+  | (v, p) :: (v', p') :: rest, w =>
+    if v = w then ⟨(p : Int) + 4, (p' : Int) - 4⟩ else specOne lastValOffset ((v', p') :: rest) w
+
+/-- … and for a list of wanted values -/
 def specLookup (tbl : List (Nat × Nat)) (lastValOffset : Int) (values : List Nat) : List Rng :=
-  values.map fun w =>
-    match tbl.findIdx? fun e => e.1 = w with
-    | none => notFound
-    | some k =>
-      match tbl[k]?, tbl[k + 1]? with
-      | some (_, off), some (_, nextOff) => ⟨(off : Int) + 4, (nextOff : Int) - 4⟩
-      | some (_, off), none => ⟨(off : Int) + 4, lastValOffset⟩
-      | none, _ => notFound
+  values.map (specOne lastValOffset tbl)
 
 end Thanos.IndexHeader
